@@ -68,6 +68,9 @@ class MemStateBackend(BaseStateBackend[Params, Result]):
         self._workflow_sub_invocations.clear()
         self._runner_contexts.clear()
         self._runner_context_cache.clear()
+        # The registry is shared by every app of the process: only this app's entry goes
+        with MemStateBackend._registry_lock:
+            MemStateBackend._app_info_registry.pop(self.app.app_id, None)
 
     def _upsert_invocations(
         self, entries: list[tuple["InvocationDTO", "CallDTO"]]
